@@ -853,3 +853,43 @@ def rule_assembled_byte_unsigned(ctx):
                     ctx.holds("BYTESIGN", key, f.where(line), "the operand joined to the shifted value has type `%s` (not a signed byte)" % tt, nontrivial=False)
     ctx.floor("BYTESIGN", 3, n, "(bytes joined to a shifted value)")
     return n
+
+
+def rule_dfsd_records_keep_flavour(ctx):
+    """RECFLAVOUR (C15): the small records DFSD stores next to a data set (max/min, calibration) are written in the byte order of
+    the data set's own number type.  The SD reader decodes them with helpers that take a number type: (a) every call of such
+    a helper in hdf_read_ndgs passes a type that carries the data set's flavour (it mentions `HDFtype`, the variable that has
+    the little-endian / native flags from the NT record), and (b) inside the helpers the type handed to DFKconvert is not
+    reduced with DFNT_MASK.  Either slip decodes little-endian records as big-endian: SDgetrange / SDgetcal then disagree
+    with DFSDgetrange / DFSDgetcal on the same file."""
+    from .facts import int_name
+    prog = ctx.prog
+    n = 0
+    helpers = ("hdf_get_cal", "hdf_get_rangeinfo")
+    for f in prog.lib_funcs():
+        if not f.rel.endswith("mfhdf/src/hdfsds.c"):
+            continue
+        k = 0
+        for _b, _i, s, c in f.calls():
+            if c[1] in helpers and len(c[3]) > 1:
+                k += 1
+                n += 1
+                key = "RECFLAVOUR:%s:%s#%d" % (f.name, c[1], k)
+                line = s.get("l", f.line)
+                if any(x[0] == "var" and x[1] == "HDFtype" for x in walk(c[3][1], True)):
+                    ctx.holds("RECFLAVOUR", key, f.where(line), "%s is given a type that carries the data set's flavour (`%s`)" % (c[1], render(c[3][1])[:50]), nontrivial=True)
+                else:
+                    ctx.violated("RECFLAVOUR", key, f.where(line), "%s is given `%s`, which does not carry the byte order of the data set the record belongs to: a record stored little-endian is decoded as big-endian" % (c[1], render(c[3][1])[:40]))
+        if f.name in helpers:
+            for _b, _i, s, c in f.calls():
+                if c[1] == "DFKconvert" and len(c[3]) > 2:
+                    n += 1
+                    key = "RECFLAVOUR:%s:convert@%d" % (f.name, sum(1 for i_ in ctx.instances if i_.key.startswith("RECFLAVOUR:%s:convert@" % f.name)))
+                    line = s.get("l", f.line)
+                    masked = any(x[0] == "bin" and x[1] == "&" and (int_name(x[3]) == "DFNT_MASK" or (is_int(x[3]) and int_val(x[3]) == 0xfff)) for x in walk(c[3][2], True))
+                    if masked:
+                        ctx.violated("RECFLAVOUR", key, f.where(line), "the type handed to DFKconvert is reduced with DFNT_MASK: the flavour flags the caller passed are dropped for the conversion")
+                    else:
+                        ctx.holds("RECFLAVOUR", key, f.where(line), "the conversion uses the type with its flavour flags", nontrivial=True)
+    ctx.floor("RECFLAVOUR", 5, n, "(decoders of DFSD side records)")
+    return n
